@@ -3,7 +3,12 @@ import json, os, shutil, subprocess, sys, time, array, re, glob
 
 VERIF = os.path.dirname(os.path.dirname(os.path.abspath(__file__)))
 REPO = os.environ.get("VERIF_REPO", "/repo")
-WORK = os.path.join(VERIF, ".work")
+import hashlib
+ALT = os.path.realpath(REPO) != "/repo"
+# sensitivity runs against a scratch copy of the tree get their own work, replay and evidence directories so they
+# can run next to checks of /repo and never overwrite real evidence
+WORK = os.path.join(VERIF, ".work", "alt-" + hashlib.md5(REPO.encode()).hexdigest()[:8]) if ALT else os.path.join(VERIF, ".work")
+OUTROOT = WORK if ALT else VERIF
 NCPU = os.cpu_count() or 4
 
 V2 = "github.com/PapaCharlie/go-restli/v2"
@@ -234,9 +239,9 @@ def run_property(pid, tier, seed, replay, keep, only):
     os.makedirs(logdir, exist_ok=True)
     log = os.path.join(logdir, "%s-%s.log" % (tier, "replay" if replay else "run"))
     open(log, "w").close()
-    rdir = os.path.join(VERIF, "replays")
+    rdir = os.path.join(OUTROOT, "replays")
     os.makedirs(rdir, exist_ok=True)
-    evpath = os.path.join(VERIF, "evidence", pid + ".json")
+    evpath = os.path.join(OUTROOT, "evidence", pid + ".json")
     os.makedirs(os.path.dirname(evpath), exist_ok=True)
     if not replay and os.path.exists(evpath):
         os.remove(evpath)
